@@ -150,6 +150,8 @@ RangeToken* RangeTokenMap::getRange(const XMLCh* const keyword,
                     {
                         XERCES_VERIF_INIT_BEGIN("RangeTokenMap.complement", elemMap, &fMutex);
                         rangeTok = RangeToken::complementRanges(rangeTok, fTokenFactory, fTokenRegistry->getMemoryManager());
+                        // Build the internal map (as the range factories do), while we hold the mutex.
+                        rangeTok->createMap();
                         elemMap->setRangeToken(rangeTok , complement);
                         XERCES_VERIF_INIT_END("RangeTokenMap.complement", elemMap, &fMutex);
                     }
